@@ -30,7 +30,7 @@ def gen_cases(ctx):
                                     continue
                                 if n is not None and n >= 4 and (T not in (1, 3) or rk == 'notifbatch'):
                                     continue
-                                for extra in ({}, dict(in_except=True), dict(tracer_kinds=['partial', 'full', 'chain'][:T]), dict(tracer_kinds=['instance', 'late', 'full'][:T]), dict(tracer_kinds=['late', 'instance', 'chain'][:T]), dict(tracer_kinds=['logging', 'full', 'chain'][:T]), dict(same_exc=True), dict(unserialisable=True)):
+                                for extra in ({}, dict(in_except=True), dict(tracer_kinds=['partial', 'full', 'chain'][:T]), dict(tracer_kinds=['instance', 'late', 'full'][:T]), dict(tracer_kinds=['late', 'instance', 'chain'][:T]), dict(tracer_kinds=['logging', 'full', 'chain'][:T]), dict(same_exc=True), dict(unserialisable=True), dict(debug_log=True)):
                                   if extra and (n not in (None, 1, 2) or via != 'call' or T == 0):
                                       continue
                                   if extra and n == 2 and not extra.get('same_exc'):
@@ -45,7 +45,7 @@ def gen_cases(ctx):
     for calls in (2, 3):
         for outcomes in itertools.product(('ok', 'exc'), repeat=calls):
             for tk in (['full'], ['logging', 'full'], ['full', 'logging', 'chain'], ['instance', 'logging']):
-                for shared in (True, False):
+                for shared in (True, False, 'own'):
                     yield dict(part='overlap', calls=calls, outcomes=list(outcomes), tracer_kinds=tk, shared_ctx=shared)
 
 
@@ -233,11 +233,13 @@ def run_overlap_case(cfg, rec):
                 raise cr.E1('call %d' % i)
             return _json.dumps(dict(jsonrpc='2.0', id=doc['id'], result=i))
         client = make_client('async', responder, tracers=tracers)
-        shared = SimpleNamespace(tag='shared') if cfg['shared_ctx'] else None
+        shared = SimpleNamespace(tag='shared') if cfg['shared_ctx'] is True else None
+        own = [SimpleNamespace(tag='own %d' % i) for i in range(n)]
+        tlog.append(('ctxs', shared, own))
 
         async def one(i):
             try:
-                return ('ok', await client.call('m', i, _trace_ctx=shared))
+                return ('ok', await client.call('m', i, _trace_ctx=own[i] if cfg['shared_ctx'] == 'own' else shared))
             except Exception as e:   # noqa
                 return ('exc', type(e).__name__)
 
@@ -251,8 +253,30 @@ def run_overlap_case(cfg, rec):
         return out, tlog
     for choices, (out, tlog) in explore_choices(once, max_exec=50000):
         sched += 1
+        _, shared, own = tlog.pop(0)
         rec.transitions += len(tlog) + 1
         c = dict(cfg=cfg, choices=list(choices))
+        # every event of one attempt carries that attempt's trace context: the caller's object when one was supplied, else one default
+        # context per attempt that no other attempt in flight shares
+        per_call = {}
+        for idx, what, tctx, req, payload in tlog:
+            per_call.setdefault(list(req.params)[0], []).append(tctx)
+        bad = None
+        for i, ctxs in per_call.items():
+            if cfg['shared_ctx'] is True:
+                if any(x is not shared for x in ctxs):
+                    bad = (i, 'the caller\'s shared context object')
+            elif cfg['shared_ctx'] == 'own':
+                if any(x is not own[i] for x in ctxs):
+                    bad = (i, 'the caller\'s context object of call %d' % i)
+            elif len({id(x) for x in ctxs}) != 1:
+                bad = (i, 'one default context for the whole attempt')
+        if bad is None and cfg['shared_ctx'] is False and len({id(v[0]) for v in per_call.values()}) != len(per_call):
+            bad = (-1, 'different default contexts for different attempts')
+        if bad is not None:
+            rec.violation('C19:overlap:an event of an attempt in flight carries another attempt\'s trace context', dict(c, call=bad[0]), expected=bad[1],
+                          observed={i: [getattr(x, 'tag', 'default#%d' % (id(x) % 1000)) for x in v] for i, v in per_call.items()})
+            continue
         vis = [t for t, k in enumerate(cfg['tracer_kinds']) if k != 'logging']
         for i in range(n):
             comp = 'end' if cfg['outcomes'][i] == 'ok' else 'error'
